@@ -89,7 +89,8 @@ def base_coords(na, k, seed):
 
 
 def base_charges(na, k, seed):
-    return np.array([0.25 * (j + 1) - 0.5 * k + 0.125 * (seed % 3) for j in range(na)], dtype=float).reshape((na,))
+    # distinct and non-zero for every (molecule k, atom j): a lost charge row is never equal to a default
+    return np.array([0.25 * (j + 1) + 1.0 * k + 0.125 * (seed % 3) for j in range(na)], dtype=float).reshape((na,))
 
 
 def mk_atoms(na):
@@ -151,7 +152,13 @@ KIND_NC = {"list1": 1, "list2": 2, "list3": 3, "mol": None, "mol_n3": 3, "ens": 
 KIND_CLASS = {"list1": "molecule-list", "list2": "molecule-list", "list3": "molecule-list", "mol": "molecule", "mol_n3": "molecule", "ens": "ensemble", "atoms2": "atom-list", "atoms0": "atom-list", "kw": "atom-list+arrays", "natoms": "n_atoms", "empty": "no-arguments", "xyz": "loads_xyz", "mol2": "loads_mol2", "struct": "structure", "clib": "library-read", "kw_row": "atom-list+arrays<row>", "kw_scalar": "atom-list+arrays<scalar>", "kw_one": "atom-list+arrays<one>", "kw_alias": "atom-list+arrays<alias>", "kw_list": "atom-list+arrays<list>", "kw_int": "atom-list+arrays<int>"}
 
 APPEND_SRC = ["M0", "own0", "E2c1", "Mx"]
-EXTEND_SRC = ["L1", "L2", "E2", "self", "ownslice", "gen", "L0"]
+EXTEND_SRC = ["L1", "L2", "E2", "self", "ownslice", "gen", "L0", "tuple2", "map2", "filter2", "iter2", "E2slice", "gen0"]
+SRC_ADD = {"M0": 1, "Mx": 1, "own0": 1, "E2c1": 1, "L1": 1, "L2": 2, "E2": 2, "gen": 1, "L0": 0, "tuple2": 2, "map2": 2, "filter2": 2, "iter2": 2, "E2slice": 2, "gen0": 0}
+SRC_ARGCLASS = {"L1": "sequence", "L2": "sequence", "tuple2": "sequence", "ownslice": "sequence", "E2slice": "sequence", "gen": "one-shot-iterable", "map2": "one-shot-iterable", "filter2": "one-shot-iterable", "iter2": "one-shot-iterable", "E2": "ensemble", "self": "itself", "L0": "empty", "gen0": "empty"}
+
+
+def src_add(src, nc):
+    return nc if src == "self" else (min(nc, 2) if src == "ownslice" else SRC_ADD[src])
 TFS = ["tr1", "tr2", "rot", "rotn", "scale2", "invert", "center_atom", "center_core"]
 WRITES = ["c_el", "c_all", "q_el", "q_all", "m_translate", "m_transform", "m_scale"]
 ROUTES = ["idx", "neg", "slice"]
@@ -230,7 +237,8 @@ class ESys:
         if k == "append":
             return f"append[{self._srcclass(st, op[1])}]"
         if k == "extend":
-            return f"extend[{self._srcclass(st, op[1])}]"
+            sc = self._srcclass(st, op[1])
+            return f"extend[{sc}]" if sc != "same-natoms" else f"extend[{sc}:{SRC_ARGCLASS[op[1]]}]"
         if k == "tf":
             return f"tf[{op[1]}]"
         if k == "w":
@@ -248,7 +256,7 @@ class ESys:
         return k
 
     def _srcclass(self, st, src):
-        if src == "L0":
+        if src in ("L0", "gen0"):
             return "empty-list"
         n_src = self.na0 + 1 if src == "Mx" else (st.na if src in ("own0", "self", "ownslice") else self.na0)
         if n_src == st.na:
@@ -347,7 +355,7 @@ class ESys:
                 if nc + 1 <= self.ncmax:
                     ops.append(("append", src))
             for src in self.rot(EXTEND_SRC):
-                add = {"L1": 1, "L2": 2, "E2": 2, "self": nc, "ownslice": min(nc, 2), "gen": 1, "L0": 0}[src]
+                add = src_add(src, nc)
                 if src in ("self", "ownslice") and nc < 1:
                     continue
                 if nc + add <= self.ncmax:
@@ -536,7 +544,51 @@ class ESys:
             return st.ens[0:2]
         if src == "gen":
             return (m for m in [st.mols[1]])
+        if src == "tuple2":
+            return (st.mols[0], st.mols[1])
+        if src == "map2":
+            return map(lambda m: m, [st.mols[0], st.mols[1]])
+        if src == "filter2":
+            return filter(lambda m: True, [st.mols[0], st.mols[1]])
+        if src == "iter2":
+            return iter([st.mols[0], st.mols[1]])
+        if src == "E2slice":
+            return st.e2[0:2]
+        if src == "gen0":
+            return (m for m in [])
         raise HarnessError(f"unknown source {src}")
+
+    def _src_rows(self, st, src):
+        """what is handed in: (coords rows, charge rows, weights or None), taken before the call"""
+        M = st.mols
+        if src == "M0":
+            g = [M[0]]
+        elif src in ("L1", "gen"):
+            g = [M[1]]
+        elif src in ("L2", "tuple2", "map2", "filter2", "iter2"):
+            g = [M[0], M[1]]
+        elif src == "own0":
+            return st.mc[0:1].copy(), st.mq[0:1].copy(), None
+        elif src == "ownslice":
+            return st.mc[0:2].copy(), st.mq[0:2].copy(), None
+        elif src == "self":
+            return st.mc.copy(), st.mq.copy(), st.mw.copy()
+        elif src == "E2c1":
+            return np.array(st.e2.coords[1:2], dtype=float), np.array(st.e2.atomic_charges[1:2], dtype=float), None
+        elif src == "E2slice":
+            return np.array(st.e2.coords[0:2], dtype=float), np.array(st.e2.atomic_charges[0:2], dtype=float), None
+        elif src == "E2":
+            return np.array(st.e2.coords, dtype=float), np.array(st.e2.atomic_charges, dtype=float), np.array(st.e2.weights, dtype=float)
+        elif src in ("L0", "gen0"):
+            return np.zeros((0, st.na, 3)), np.zeros((0, st.na)), None
+        else:
+            raise HarnessError(src)
+        na = st.na
+        return (
+            np.array([m.coords for m in g], dtype=float).reshape((len(g), na, 3)),
+            np.array([m.atomic_charges for m in g], dtype=float).reshape((len(g), na)),
+            None,
+        )
 
     def _conf(self, st, route, i):
         e = st.ens
@@ -613,7 +665,8 @@ class ESys:
             src = op[1]
             sc = self._srcclass(st, src)
             arg = self._src(st, src)
-            add = {"M0": 1, "Mx": 1, "own0": 1, "E2c1": 1, "L1": 1, "L2": 2, "E2": 2, "self": st.nc, "ownslice": min(st.nc, 2), "gen": 1, "L0": 0}[src]
+            add = src_add(src, st.nc)
+            handed = self._src_rows(st, src) if sc == "same-natoms" else None
             lenient = sc != "same-natoms"
             try:
                 if kind == "append":
@@ -640,6 +693,20 @@ class ESys:
             st.mq = np.zeros((nc, st.na))
             st.mw = np.zeros((nc,))
             ok = self._check_rect(st, op, oc)
+            if ok and handed is not None and not self.quiet:
+                # rectangular also means: row i of each array belongs to conformer i - the rows that
+                # were there stay what they were, the new rows are what was handed in
+                n0 = pre[0].shape[0]
+                real = (np.array(e.coords, dtype=float), np.array(e.atomic_charges, dtype=float), np.array(e.weights, dtype=float))
+                names = ("coords", "charges", "weights")
+                old_bad = [names[i] for i in range(3) if not eqnan(real[i][:n0], pre[i])]
+                if old_bad:
+                    self.viol(st, op, f"{oc}:existing-rows-changed[{','.join(old_bad)}]", f"{kind}({src}) changed rows of conformers that were already there: {old_bad}")
+                    return False
+                new_bad = [names[i] for i in range(3) if handed[i] is not None and not eqnan(real[i][n0:], handed[i])]
+                if new_bad:
+                    self.viol(st, op, f"{oc}:appended-rows-differ[{','.join(new_bad)}]", f"{kind}({src}): the {new_bad} rows of the appended conformers are not the ones of the geometries handed in")
+                    return False
             if ok:
                 self._resync(st)
                 ok = self._check_state(st, op, oc, None, None, alias=True)
@@ -1595,7 +1662,7 @@ def repro_code(na, seed, hist):
         "def mk(k, n=na):",
         "    m = ml.Molecule([Atom(E[j % 4]) for j in range(n)], name='mol')",
         "    m.coords = np.arange(3.0 * n).reshape(n, 3) + 10 * k",
-        "    m.atomic_charges = np.arange(float(n)) + 0.5 * k",
+        "    m.atomic_charges = np.arange(float(n)) + 1.0 + 0.5 * k",
         "    for j in range(n - 1): m.connect(j, j + 1)",
         "    return m",
         "M = [mk(0), mk(1), mk(2)]; Mx = mk(5, na + 1); E2 = ml.ConformerEnsemble([mk(3), mk(4)])",
@@ -1625,7 +1692,7 @@ def repro_code(na, seed, hist):
         "struct": "ml.ConformerEnsemble(ml.Structure(M[0]))",
         "clib": "ml.ConformerEnsemble([M[0], M[1], M[2]])  # (the check stores it in a ConformerLibrary and reads it back)",
     }
-    src = {"M0": "M[0]", "Mx": "Mx", "own0": "ens[0]", "E2c1": "E2[1]", "L1": "[M[1]]", "L2": "[M[0], M[1]]", "L0": "[]", "E2": "E2", "self": "ens", "ownslice": "ens[0:2]", "gen": "(m for m in [M[1]])"}
+    src = {"M0": "M[0]", "Mx": "Mx", "own0": "ens[0]", "E2c1": "E2[1]", "L1": "[M[1]]", "L2": "[M[0], M[1]]", "L0": "[]", "E2": "E2", "self": "ens", "ownslice": "ens[0:2]", "gen": "(m for m in [M[1]])", "tuple2": "(M[0], M[1])", "map2": "map(lambda m: m, [M[0], M[1]])", "filter2": "filter(None, [M[0], M[1]])", "iter2": "iter([M[0], M[1]])", "E2slice": "E2[0:2]", "gen0": "(m for m in [])"}
     tf = {
         "tr1": "ens.translate([1.0, -2.0, 0.5])",
         "tr2": "ens.translate(np.ones((ens.n_conformers, 3)))",
@@ -1711,6 +1778,8 @@ def repro_code(na, seed, hist):
         L.append("if held is not None:")
         L.append("    held.coords = held.coords + 1.0; held.translate([1.0, -2.0, 0.5])")
         L.append("    print('held view reads', held.coords[0], '; ensemble row', ens.coords[held_row][0], '; fresh view', ens[held_row].coords[0])   # all three must agree")
+    if any(o[0] in ("append", "extend") for o in hist):
+        L.append("print('charges of the ensemble rows:', ens.atomic_charges.tolist(), '; M[0], M[1] charges:', M[0].atomic_charges.tolist(), M[1].atomic_charges.tolist())")
     L.append("print('n_conformers', ens.n_conformers, 'n_atoms', ens.n_atoms, 'coords', ens.coords.shape, 'charges', ens.atomic_charges.shape, 'weights', ens.weights.shape)")
     return "\n".join(L)
 
@@ -1830,7 +1899,7 @@ def run(ctx):
         "observer (thorough: two rounds) is executed without any deduplication"
     )
     ctx.assumptions += [
-        "the values stored by constructors, append/extend (incl. the charges and weights of new conformers) and collective transformations are not part of this property: after checking the shapes the model re-synchronises from the object (C06/C11 cover the values)",
+        "the values stored by collective transformations and by constructors without keyword arrays are not part of this property (C06/C11): after checking the shapes the model re-synchronises from the object; but rows belong to conformers: append/extend leave the existing rows of coords/charges/weights as they were and the new rows are the coordinates and partial charges of the geometries handed in (weights: those of an ensemble argument), and a keyword array given to the constructor is what the ensemble shows",
         "appending / extending with a geometry of a different atom count, extending with an empty list, and transforming an ensemble with 0 conformers or 0 atoms may either raise (state unchanged) or succeed (state rectangular by the ensemble's own n_conformers/n_atoms)",
         "append/extend are not generated while an iterator is live (growing a sequence under iteration is outside the property)",
         "a conformer object is identified with a row by its declared conformer id, else by the memory its coords view",
